@@ -101,6 +101,7 @@ pub fn short_op(o: &Op) -> String {
         Op::Batch { items } => format!("batch[{}]", items.len()),
         Op::Get { k } => format!("get(k{})", k),
         Op::GetMany { k, n } => format!("get(k{})x{}", k, n),
+        Op::Align { mask, nth } => format!("align(0x{:02x},{})", mask, nth),
         Op::GetSnap { slot, k } => format!("get@s{}(k{})", slot, k),
         Op::Snap { slot } => format!("snap(s{})", slot),
         Op::Release { slot } => format!("release(s{})", slot),
@@ -140,6 +141,8 @@ pub fn run_check(spec: &CheckSpec, tier: Tier) -> i32 {
         Tier::Thorough => (spec.runs_thorough, spec.wall_thorough),
     };
     let n_runs = std::env::var("RAINSIM_RUNS").ok().and_then(|s| s.parse().ok()).unwrap_or(n_runs);
+    // experiments only (a loaded machine): override the wall budget
+    let wall = std::env::var("RAINSIM_WALL").ok().and_then(|s| s.parse::<f64>().ok()).unwrap_or(wall);
     let known = KnownFindings::load();
     println!("rainsim check {} tier={} VERIF_SEED={} runs<={} wall<={}s workers={}", spec.prop, tier.name(), seed, n_runs, wall, workers());
 
